@@ -130,8 +130,13 @@ def hb_programs(tier):
 def run_C03(tier):
     J = []
     for cfg in HB_CFGS:
-        for (fam, p, P, E) in hb_programs(tier):
+        # the deeper thorough budgets on the default flavour; the other two atomic.h flavours and the
+        # pass with the semaphore's orders downgraded differ from it only in the orders requested, which
+        # the quick budgets already expose (stateless runs grow too fast to afford P+1 six times over)
+        deep = (tier == 'thorough' and cfg == 'c-futex')
+        for (fam, p, P, E) in hb_programs('thorough' if deep else 'quick'):
             J.append(Job(cfg, fam, p, P, E, ('--hb',)))
+        for (fam, p, P, E) in hb_programs('quick'):
             J.append(Job(cfg, fam, p, P, E, ('--hb', '--sem-hb=off')))
     return generic('C03', tier, J,
         'stateless DFS (no state pruning) over schedules with a vector-clock happens-before monitor fed only by the memory_order argument of each instrumented atomic call (C++20 release-sequence rules; no edge for futex, scheduler or CPU); every plain access of client data and of nsync\'s own fields is checked; all three atomic.h flavours; second pass with the semaphore\'s own orders downgraded to relaxed',
